@@ -131,7 +131,7 @@ func (g *Gen) verifyFunc(fc *FuncContract) (*VC, error) {
 	env.old = st.clone()
 	vc.entrySt = st.clone()
 	for _, r := range fc.Requires {
-		t, err := env.boolExpr(r.E)
+		t, err := env.assumeExpr(r.E)
 		if err != nil {
 			return vc, fmt.Errorf("%s: requires %s: %v", fc.Key, r.Name, err)
 		}
@@ -498,18 +498,19 @@ func (vc *VC) inlineDef(fc *FuncContract) (string, error) {
 }
 
 // ghostDefine emits the SMT definition of a ghost function; heap components it reads become extra parameters.
-func (vc *VC) ghostDefine(gf *GhostFunc) (*ghostDef, error) {
-	key := gf.PkgPath + "." + gf.Name
+func (vc *VC) ghostDefine(gf *GhostFunc, tpb map[string]types.Type) (*ghostDef, error) {
+	key := gf.PkgPath + "." + gf.Name + bindKey(tpb)
 	if gd, ok := vc.ghostDefs[key]; ok {
 		return gd, nil
 	}
-	name := sym("gh." + gf.Name)
+	name := sym("gh." + gf.Name + mangle(bindKey(tpb)))
 	env := vc.newEnv(gf.PkgPath, nil)
+	env.tpBind = tpb
 	rt, err := env.resolveType(gf.Result)
 	if err != nil {
 		return nil, fmt.Errorf("ghost %s: %v", gf.Name, err)
 	}
-	gd := &ghostDef{name: name, result: rt}
+	gd := &ghostDef{name: name, result: rt, fuel: gf.Fuel}
 	vc.ghostDefs[key] = gd
 	var ps []string
 	bind := func(e *SpecEnv) error {
@@ -537,6 +538,7 @@ func (vc *VC) ghostDefine(gf *GhostFunc) (*ghostDef, error) {
 		vc.consts = append(vc.consts, fmt.Sprintf("(declare-fun %s (%s) %s)", name, strings.Join(sorts, " "), vc.d.sortOf(rt)))
 		for _, ax := range gf.Axioms {
 			aenv := vc.newEnv(gf.PkgPath, nil)
+			aenv.tpBind = tpb
 			aenv.heapParam = map[string]string{}
 			aenv.heapUsed = map[string]bool{}
 			t, err := aenv.boolExpr(ax.E)
@@ -553,6 +555,7 @@ func (vc *VC) ghostDefine(gf *GhostFunc) (*ghostDef, error) {
 	}
 	// pass 1: discover heap components read
 	e1 := vc.newEnv(gf.PkgPath, nil)
+	e1.tpBind = tpb
 	e1.heapParam = map[string]string{}
 	e1.heapUsed = map[string]bool{}
 	if err := bind(e1); err != nil {
@@ -568,10 +571,14 @@ func (vc *VC) ghostDefine(gf *GhostFunc) (*ghostDef, error) {
 	gd.heaps = sortedSet(e1.heapUsed)
 	// pass 2
 	e2 := vc.newEnv(gf.PkgPath, nil)
+	e2.tpBind = tpb
 	e2.heapParam = map[string]string{}
 	e2.heapUsed = map[string]bool{}
 	if err := bind(e2); err != nil {
 		return nil, err
+	}
+	if gf.Fuel {
+		e2.fuelTerm = "fl!"
 	}
 	body, err := e2.expr(gf.Body)
 	if err != nil {
@@ -584,6 +591,31 @@ func (vc *VC) ghostDefine(gf *GhostFunc) (*ghostDef, error) {
 	}
 	for _, h := range gd.heaps {
 		ps = append(ps, fmt.Sprintf("(%s %s)", sym("hp!"+h), vc.sortOfState(h)))
+	}
+	if gf.Fuel {
+		// uninterpreted function + unfolding axiom limited by fuel (no matching loop): f(S(fl), x) == body[f(fl, .)] and
+		// f(S(fl), x) == f(fl, x); terms written in contracts carry fuel 2
+		vc.d.add("fuel", "(declare-sort Fuel 0)\n(declare-fun fuel.Z () Fuel)\n(declare-fun fuel.S (Fuel) Fuel)")
+		var sorts, args []string
+		for _, p := range ps {
+			f := strings.SplitN(strings.TrimSuffix(strings.TrimPrefix(p, "("), ")"), " ", 2)
+			args = append(args, f[0])
+			sorts = append(sorts, f[1])
+		}
+		vc.consts = append(vc.consts, fmt.Sprintf("(declare-fun %s (Fuel %s) %s)", name, strings.Join(sorts, " "), vc.d.sortOf(rt)))
+		app := fmt.Sprintf("(%s (fuel.S fl!) %s)", name, strings.Join(args, " "))
+		low := fmt.Sprintf("(%s fl! %s)", name, strings.Join(args, " "))
+		vc.defs = append(vc.defs, fmt.Sprintf("(assert (forall ((fl! Fuel) %s) (! (and (= %s %s) (= %s %s)) :pattern (%s))))", strings.Join(ps, " "), app, body.t, app, low, app))
+		for i, p := range ps[:len(ps)-len(gd.heaps)] {
+			f := strings.SplitN(strings.TrimSuffix(strings.TrimPrefix(p, "("), ")"), " ", 2)
+			if pt, err := e2.resolveType(gf.Params[i].T); err == nil {
+				if _, abstract := pt.(*types.TypeParam); abstract {
+					f[1] = "abstract:" + f[1] // a value of type-parameter type is never dereferenced by the function
+				}
+			}
+			gd.params = append(gd.params, [2]string{f[0], f[1]})
+		}
+		return gd, nil
 	}
 	kw := "define-fun"
 	if gf.Rec {
@@ -605,7 +637,7 @@ func (g *Gen) lemmaVC(lm *Lemma) (*VC, error) {
 		if ul == nil {
 			return vc, fmt.Errorf("lemma %s uses unknown lemma %s", lm.Name, u)
 		}
-		t, err := env.boolExpr(ul.E)
+		t, err := env.assumeExpr(ul.E)
 		if err != nil {
 			return vc, fmt.Errorf("lemma %s (used by %s): %v", u, lm.Name, err)
 		}
